@@ -21,7 +21,7 @@ ASSUMPTIONS = ['virtual time: computation takes no time, so the exact stratum de
                'horizon for endless sources: 3-40 periods, at most 600 simulated seconds']
 PROBES = ['endless_source', 'two_sources_alive']
 PLAN = {
-  'quick': {'strata': {'exact': 2500, 'jitter': 1500}, 'wall_s': 150, 'chunk': 50, 'min_conclusive': 800},
+  'quick': {'strata': {'exact': 2500, 'jitter': 1500}, 'wall_s': 300, 'chunk': 50, 'min_conclusive': 800},
   'thorough': {'strata': {'exact': 70000, 'jitter': 40000}, 'wall_s': 900, 'chunk': 100, 'min_conclusive': 8000},
 }
 PERIODS = [0.1, 0.25, 1, 7, 60]
